@@ -120,7 +120,10 @@ def check_timeline(spec, o, who='sim'):
         if dt > 0 and stop >= start:
             q = (stop - start) / dt
             exp = floor_div(stop - start, dt) + 1
-            if n != exp:
+            # timelines are rounded to time_eps: a point that exceeds stop by less than that IS stop (e.g. a dt written with
+            # 17 digits, 0.15000000000000002, whose 8th multiple passes 1.2 by 2e-16) — the same tolerance as `last-point`
+            within_eps = (n == exp + 1 and start + (n - 1) * dt <= stop + TOL)
+            if n != exp and not within_eps:
                 cause = 'other'
                 if q.denominator == 1 and n == exp - 1:
                     cause = 'float-quotient-below-integer'
